@@ -1307,7 +1307,7 @@ def str_to_man_exp(x, base=10):
     if len(parts) == 2:
         a, b = parts[0], parts[1].rstrip('0')
         exp -= len(b)
-        x = a + b
+        x = (a + b) if (a + b).strip('+-') else '0'   # '.0', '-.00': no digit left
     x = MPZ(int(x, base))
     return x, exp
 
